@@ -203,6 +203,14 @@ func (g *GruleEngine) ExecuteWithContext(ctx context.Context, dataCtx ast.IDataC
 			}
 		}
 
+		// a cancellation seen by the last rule evaluation of this cycle must not be mistaken
+		// for "no (more) rule to run".
+		if ctx.Err() != nil {
+			log.Error("Context canceled")
+
+			return ctx.Err()
+		}
+
 		// disabled to test the rete's variable change detection.
 		// knowledge.RuleContextReset()
 		log.Tracef("Selected rules %d.", len(runnable))
